@@ -757,16 +757,18 @@ def gen_simple() -> str:
     mod = importlib.import_module("acnportal.acnsim.network.sites." + SIMPLE_FILE[:-3])
     fn = mod.simple_acn
     # ---- the limit of the one constraint as a function of (aggregate_cap, voltage): fitted by probing
-    mono, why = "none", ""
+    mono, why, cname = "none", "", ""
     try:
         with warnings.catch_warnings(), contextlib.redirect_stdout(io.StringIO()):
             warnings.simplefilter("ignore")
             mono = _fit_simple(lambda c, v: fn(["p", "q", "r"], voltage=v, aggregate_cap=c))
+            cname = str(list(fn(["p", "q", "r"]).constraint_index)[0])
     except Exception as e:  # noqa: BLE001 — `simple_formula` then fails: the limit is not of the documented class
         why = f" ({type(e).__name__}: {e})".replace("-/", "- /")
     out.append("/-- limit of the aggregate constraint, fitted to `simple_acn(ids, voltage=v, aggregate_cap=c).magnitudes` at\n"
                f"    c, v ∈ {{1, 8, 1000}} × {{1, 8, 250}}; `none`: not a monomial of that class{why} -/\n"
                f"def limitMono : Option Mono := {mono}\n")
+    out.append("/-- name of that constraint in the built network -/\ndef constraintName : String := " + _strs([cname])[1:-1] + "\n")
     # ---- signature defaults (live function)
     sig = _signature_defaults(fn)
     dv, dc, dt = sig.get("voltage"), sig.get("aggregate_cap"), sig.get("evse_type")
